@@ -10,6 +10,8 @@ CORPUS = [
     ("(set (r (tag i c 0 real)) (r enum))", "(seq (real -3 2 128) (i -32769))"),      # D13
     ("(seq (o (seqof (seqof int))))", "(seq (of (of)))"),                                 # E3 leak
     ("int", "(i -32768)"),                                                                 # E5
+    ("(seq (r int) (d (of (i 1) (i 2)) (seqof int)))", "(seq (i 5) (of))"),                # DEFAULT of constructed type, empty value
+    ("(seq (r int) (d (seq (i 9)) (tag i c 1 (seq (o int)))))", "(seq (i 5) (seq absent))"),
 ]
 
 
